@@ -806,7 +806,9 @@ def _census_fn(ctx, fn, via, depth, emit):
         if g.kind != 'reject':
             continue
         label = short(fn.id) if not via else short(via[-1])
-        if g.kinds <= {'err_prop'} and g.pred[0] == 'fails':
+        prop_none = g.pred[0] == 'is_none' and strip(g.pred[1])[0] == 'call' and any(s in _head(g.pred[1]) for s in EXPECTED_PROP) and \
+            not any(m(g) for t, m, _ in EXPECTED_OWN)
+        if (g.kinds <= {'err_prop'} and g.pred[0] == 'fails') or prop_none:
             src = _head(g.pred[1])
             ok = any(s in src for s in EXPECTED_PROP)
             if not ok and depth < 3:
